@@ -772,20 +772,12 @@ func judgeQual(r *mon.Run, c Case, ok bool, qn uint64, value *big.Int) {
 		r.Violation("C16:qn:below-min", fmt.Sprintf("validateProve ok=true with qn=%d < 1 (total stake %d, stake ratio %s)", qn, c.TotalStake, sr.RatString()), c)
 		return
 	}
-	// observation only (not demanded by the property): qn versus the exact floor
-	eff := sr
-	if eff.Cmp(big.NewRat(1, 1)) > 0 {
-		eff = big.NewRat(1, 1)
-	}
-	// exact = floor( value*maxQN*den / (max256*num) ) + 1
-	n := new(big.Int).Mul(value, big.NewInt(int64(maxQN)))
-	n.Mul(n, eff.Denom())
-	d := new(big.Int).Mul(max256, eff.Num())
-	qnExact := new(big.Int).Quo(n, d).Uint64() + 1
-	if qnExact == qn {
+	// the exact rule of the code: ratio clamped to 1, step = ratio/MaxQN, floor(valueRatio/step)+1, at most MaxQN
+	if want := exactQn(value, sr); want == qn {
 		r.Count("qual_qn_equals_exact_floor", 1)
 	} else {
-		r.Count("qual_qn_in_range_but_not_exact_floor", 1)
+		r.Count("qual_qn_differs_from_exact_rule", 1)
+		deferV("C16:qn:differs-from-exact-rule", fmt.Sprintf("validateProve ok=true qn=%d, the exact rule gives %d (total stake %d, height %d, working miners %d, stake ratio %s, value %s = %s)", qn, want, c.TotalStake, c.Height, c.WorkingMiners, sr.RatString(), value.String(), c.Near), c)
 	}
 }
 
@@ -1011,6 +1003,13 @@ func searchZeroLead(r *mon.Run, wantZeros, wantHits, maxBlocks int) []hit {
 	return hits
 }
 
+func flushAll(r *mon.Run) {
+	flushSecondOutputs(r)
+	flushAboveMax(r)
+	flushQualPanics(r)
+	flushDeferred(r)
+}
+
 func replay(r *mon.Run, path string) {
 	v, err := mon.LoadReplay(path)
 	if err != nil {
@@ -1045,15 +1044,24 @@ func replay(r *mon.Run, path string) {
 		}
 	case "qual":
 		runQual(r, c)
+		// and once more after the clamped evaluations of the history phase (a recorded
+		// deviation may depend on what the process evaluated before)
+		pre, cl := histInputs(r)
+		for k := range pre {
+			if cl[k] {
+				evalInput(r, pre[k])
+			}
+		}
+		runQual(r, c)
 	case "shared":
 		replayShared(r, c)
+	case "qnhist":
+		replayHist(r, c)
 	default:
 		fmt.Println("MACHINERY: unknown case kind in replay:", c.Kind)
 		os.Exit(2)
 	}
-	flushSecondOutputs(r)
-	flushAboveMax(r)
-	flushQualPanics(r)
+	flushAll(r)
 	cleanup()
 	r.Finish(mon.Coverage{Evaluations: 2, DistinctNontrivial: 2, Rule: "replay of one recorded case"})
 }
@@ -1085,6 +1093,10 @@ func main() {
 		sharedChild(args)
 		return
 	}
+	if args, ok := mon.IsChildInvocation(); ok && len(args) > 0 && args[0] == "qn" {
+		histChild(args)
+		return
+	}
 	r := mon.Start("C16")
 	if p := mon.ReplayArg(); p != "" {
 		replay(r, p)
@@ -1099,6 +1111,11 @@ func main() {
 		sharedFirstPass(r, &groups[g])
 	}
 	phase("D1 shared first pass")
+
+	// ---- H1. quality number against process history: mixed sequence, one goroutine, before
+	// anything else has called validateProve
+	hist := histSequence(r)
+	phase("H1 qn history sequence")
 
 	// ---- A. honest proofs, bit flips, crafted proofs over seeded keys/messages
 	nKeys := r.Pick(2000, 100000)
@@ -1279,9 +1296,11 @@ func main() {
 		r.DistinctHash("qual", hash64(c.Proof[:32], u64(c.Height), u64(c.WorkingMiners), u64(c.TotalStake)))
 	})
 	phase("C qualification")
-	flushSecondOutputs(r)
-	flushAboveMax(r)
-	flushQualPanics(r)
+	// ---- H2/H3. the history inputs again at the end of the run, and each alone in a fresh process
+	hist.histFinal(r)
+	hist.histChildren(r)
+	phase("H2/H3 qn history end + children")
+	flushAll(r)
 
 	// samples
 	if len(pairs) > 0 {
@@ -1303,13 +1322,14 @@ func main() {
 	mutants := r.Get("mutants_accepted") + r.Get("mutants_rejected")
 	crafted := int64(r.DistinctCount("crafted"))
 	evals := r.Get("honest_verifies") + r.Get("transport_verifies") + mutants + crafted + r.Get("qual_checks") + r.Get("qual_checks_zero_stake") +
-		r.Get("shared_verifies") + r.Get("shared_cross_key_verifies") + r.Get("shared_history_compares")
+		r.Get("shared_verifies") + r.Get("shared_cross_key_verifies") + r.Get("shared_history_compares") + r.Get("hist_evaluations") + r.Get("hist_child_evaluations")
 	must := []string{"honest_verifies", "transport_verifies_shortened", "transport_qualification_checks", "mutants_rejected",
 		"mutant_verifies_proof", "mutant_verifies_pk", "mutant_verifies_msg", "mutant_verifies_short-proof",
 		"small_order_proofs_cT_is_O", "crafted_verifies_small-order", "crafted_verifies_s-plus-q", "crafted_verifies_overlong",
 		"qual_checks", "qual_qualified", "qual_not_qualified", "determinism_checks",
 		"transport_lead_zero_bytes=1", "transport_lead_zero_bytes=2",
-		"shared_groups", "shared_reprove_checks", "shared_history_compares", "shared_cross_key_rejected", "shared_child_groups", "single_key_pairs_on_shared_messages"}
+		"shared_groups", "shared_reprove_checks", "shared_history_compares", "shared_cross_key_rejected", "shared_child_groups", "single_key_pairs_on_shared_messages",
+		"hist_evaluations", "hist_clamped_evaluations", "hist_reevaluations_after_clamped", "hist_child_evaluations", "calQn_direct_calls", "qual_qn_equals_exact_floor"}
 	if r.Thorough() {
 		must = append(must, "transport_lead_zero_bytes=3")
 	}
@@ -1321,11 +1341,12 @@ func main() {
 			"crafted proofs by the harness as prover knowing the key: (Gamma+E,c,s) for the 7 non-trivial small-order E with the nonce ground until c mod ord(E) equals the guess (0 and non-0), s+q, over-long, zero-prefixed, truncated; " +
 			"validateProve on synthetic proofs whose first 32 bytes sit at, +-1, -2, +-2^k around floor(j*min(stakeRatio,1)/MaxQN*(2^256-1)), j=1..MaxQN, plus 0,1,2^256-2,2^256-1 and seeded random values, for totalStake in the design list x workingMiners x heights around Proposal025+rewardBlocks, each called twice. " +
 			"shared-message groups: 4-16 key pairs prove/verify one message interleaved in one goroutine at process start (key 0 before anyone else touched it, re-proved after other keys' turns, cross-key verification must fail), again in the opposite key order after the rest of the run, and in a fresh child process; proofs must be byte-identical across the three histories and verify in each; a quarter of the third messages of the single-key workload reuse these shared messages. " +
+			"qn history: a seeded single-goroutine sequence in which every input (stake ratio > 1 by tiny stake or few working miners, = 1, just below 1, ordinary; two qualifying values each) is evaluated 4-5 times at different positions through validateProve and calQn, once more at the end of the run, and alone in a fresh child process; all results of an input must be equal and equal the exact rule. " +
 			"Non-trivial: mutants, crafted proofs, zero-leading honest proofs, qualification probes and (key, shared message) pairs (distinct by content); ordinary honest proofs are the control",
 		Assumptions: []string{
 			"oracle arithmetic (math/big Int/Rat) is exact",
 			"stakeRatio is recomputed as difficulty*clamp(totalStake*PotentialProposalIndex/100, PotentialProposal, PotentialProposalMax)/totalStake from model.Param; configurations whose operands the node cannot represent (uint64 wrap, difficulty*potential >= 2^63, totalStake not a float64 integer) are judged against the node's own calcStakeRatio (qn range and determinism only)",
-			"the quality number is only required to be deterministic and within [1,MaxQN] when ok; agreement with the exact floor is counted, not demanded",
+			"the quality number of a qualifying proof must be within [1,MaxQN], equal to the exact rule of the code (stake ratio clamped to 1, step = ratio/MaxQN, floor(valueRatio/step)+1 capped at MaxQN) on every evaluation, and independent of what the process evaluated before; qn of non-qualifying proofs is not judged",
 			"validateProve is judged as a total function of the proof bytes: the probe values are synthetic first-32-byte values, not outputs of verifiable proofs",
 			"keys are honest key pairs from VRFGenerateKey (small-order public keys are outside the statement)",
 		},
